@@ -631,8 +631,10 @@ UNITS += [
                "thread it makes pending is handed to schedule_thread exactly once, after the step; an already pending thread is not "
                "queued again; an active thread is deferred (create_work) or spun on, never written; null id / `active` request: no effect"),
     other_unit("other.abort_all_suspended", "U_ABORT_ALL", "abort_one", "abort_one_body",
-               Lift(TQ, r"auto thrd = threads::detail::get_thread_id_data\(\*it\);",
-                    fragment_end=r"schedule_thread\(threads::detail::thread_id_ref_type\(thrd\)\);\s*\}", rules=ABORT_RULES),
+               Lift(TQ, r"auto thrd = threads::detail::get_thread_id_data\((?:\*\s*\w+|\w+)\);",
+                    fragment_end=r"schedule_thread\(threads::detail::thread_id_ref_type\(thrd\)\);\s*\}",
+                    # the loop element: `*it` of the iterator loop or the variable of a range-for over thread_map_
+                    rules=[Sub(r"get_thread_id_data\((?:\*\s*\w+|\w+)\);", "get_thread_id_data(*it);", 1)] + ABORT_RULES),
                [TQ + ": thread_queue::abort_all_suspended_threads (fragment: loop body for one element of thread_map_)",
                 TD + ": thread_data::get_state, set_state (inlined)"],
                "S+T: only a SUSPENDED word is moved (to (pending, abort)), in particular never an active one (STEP_OTHER asserted at "
@@ -695,6 +697,7 @@ FRAG_RULES = [
     Method("store_state", "switch_status_store_state(&{recv}, &{0})"),
     Method("move_next_thread", "switch_status_move_next_thread(&{recv})"),
     # SchedulingPolicy callees -> T stubs (idle_loop_count and added are passed by reference)
+    Sub(r"(?:pika::)?execution::thread_schedule_hint(?:\s+const)?\s+(\w+)\s*[({]([^;]*)[)}];", r"__typeof__(hint_thread(\2)) \1 = hint_thread(\2);", None),
     Call0(r"(?:pika::)?execution::thread_schedule_hint", "hint_thread({0})"),
     Call0(SP + "wait_or_add_new", "sp_wait_or_add_new({0}, {1}, &{2}, {3}, &{4})"),
     Call0(SP + "schedule_thread_last", "sp_schedule_thread_last({0}, {1}, {2})"),
